@@ -189,6 +189,17 @@ def check_C09(tier):
 
 
 def check_C11(tier):
+    # design level: the parallel-move algorithm with the three backends' scratch handling, all assignments over N temporaries
+    n = T(tier, 5, 6)
+    open(os.path.join(SPEC, "ParMoves_run.cfg"), "w").write("SPECIFICATION Spec\nCONSTANT N = %d\nINVARIANT Correct\nCHECK_DEADLOCK FALSE\n" % n)
+    pm = run_tlc("ParMoves", "ParMoves_run.cfg", os.path.join(WORK, "C11-design"), {}, workers=8, timeout=T(tier, 600, 7000), xmx="12g")
+    ptxt = open(pm["out"]).read()
+    design_viols = []
+    if "violated" in ptxt:
+        rp = save_replay("C11", "design-parmoves", {"tlc_output": ptxt[-5000:]})
+        design_viols.append({"signature": "C11:design:parallel-moves", "replay": rp, "what": "spec/ParMoves.tla: the parallel-move design violates SimultaneousAssignment / OnlyScratchClobbered"})
+    elif pm["rc"] != 0 or pm["states"] is None:
+        raise ToolError("ParMoves did not complete: %s" % (pm["errors"][:2] or ptxt[-300:]))
     r = rng_for("C11")
     if tier == "quick":
         directed = GL.fam_subst_exhaustive(3, 3, [0, 4, 5, 11, 12]) + GL.fam_subst_random(r, 300)
@@ -201,7 +212,8 @@ def check_C11(tier):
         directed = GL.fam_subst_exhaustive(4, 4, [0, 3, 4, 5, 10, 11, 12], kind_patterns=pats) + GL.fam_subst_random(r, 4000)
     return lockstep.lockstep_check(
         "C11", tier, ["x86", "a64", "rv64"], [], maxsteps=4000, timeout=T(tier, 900, 7000), directed=directed,
-        with_examples=False, level="model_checking",
+        with_examples=False, level="model_checking", extra_viols=design_viols,
+        extra_cov={"design_model": {"module": "spec/ParMoves.tla", "N": n, "assignments_x_spillsets_x_backends": pm["distinct"], "exhaustive": True}},
         extra_rule="every map from m new variables to n old ones (quick m,n<=3; thorough m,n<=4), every kind assignment "
                    "(patterns above 3), window offsets across each backend's register/spill boundary; the marker after the "
                    "substitution compares every new variable with the simultaneous assignment of the AxCut machine and "
